@@ -380,7 +380,7 @@ def shapes(ctx):
             return P
         g = rnd.choice(T)
         return g(*[rand_shape(d - 1) for _ in range(nargs(g))])
-    for _ in range(ctx.scale(300, 6000) * ctx.nshards):
+    for _ in range(ctx.scale(300, 2500) * ctx.nshards):
         top = rnd.choice(T + STATEMENTS) if rnd.random() < 0.3 else rnd.choice(T)
         yield top(*[rand_shape(2) for _ in range(nargs(top))])
 
@@ -389,7 +389,7 @@ def cases(ctx):
     n = 0
     r = random.Random(ctx.seed * 7919 + 11)
     for sh in shapes(ctx):
-        for variant in [sh] + list(with_literals(sh, r, 2 if ctx.quick else 8)):
+        for variant in [sh] + list(with_literals(sh, r, 2 if ctx.quick else 4)):
             cnt = [0]
             s = number(variant, cnt)
             k = cnt[0]
